@@ -1,0 +1,8 @@
+//go:build !verif
+
+package caddy
+
+// verifYield marks the lock-region boundaries of usagepool.go for the forced-schedule
+// verification harness (see usagepool_verif.go, build tag `verif`). It does nothing
+// in normal builds.
+func verifYield(*UsagePool, int, *usagePoolVal) {}
